@@ -65,6 +65,21 @@ def managerDeployCapacity (answers : List Answer) : Answer × Int :=
   let merged := ((mergeFold answers).getD []).map fun (name, c) => (name, average c)
   (merged, merged.foldl (fun t (_, c) => satAdd t c.cap) 0)
 
+/-- cobalt `call`: every plugin is called concurrently and the caller *waits for all of them*
+    (`wg.Wait()`; a cancelled or expired caller context does not cut the wait short — a plugin
+    that watches the context answers with an error instead).  The result is the answers of all
+    plugins, or an error if any plugin failed (the successful answers are handed back next to
+    the error, for rollbacks). -/
+def call {α} (results : List (String × Except String α)) : List (String × α) × Option String :=
+  (results.filterMap fun (p, r) => match r with | .ok a => some (p, a) | .error _ => none,
+   (results.filterMap fun (_, r) => match r with | .ok _ => none | .error e => some e).head?)
+
+/-- Manager.GetNodesDeployCapacity through `call`: an error, or the merge over ALL plugins -/
+def managerDeployCapacityCall (results : List (String × Except String Answer)) : Except String (Answer × Int) :=
+  match call results with
+  | (answers, none) => .ok (managerDeployCapacity (answers.map (·.2)))
+  | (_, some e) => .error e
+
 /-- the old total loop (not kept at MaxInt64), for the counterexample in Props/C07 -/
 def totalOld (caps : List Int) : Int :=
   caps.foldl (fun t c => if c = maxInt then maxInt else wrap64 (t + c)) 0
